@@ -26,7 +26,7 @@ RULE = ("complete enumeration of the stated token sequences / truncations / perm
 ASSUMPTIONS = ["documented errors = ValueError, TypeError and their subclasses (AddressValueError, "
                "NetmaskValueError)", "per-call CPU budget 2 s (sweeps: 30 s and at most ~quadratic growth)"]
 REQUIRED = ["returned_and_reaccepted", "documented_error", "config_returned", "sweep_ok",
-            "option_returned"]
+            "option_returned", "items_returned"]
 KF_UNNAMED = "C20:Acl:empty_text_gives_unnamed_acl_whose_text_is_rejected"
 
 PLATFORMS = ("ios", "nxos", "asa")
@@ -101,6 +101,7 @@ def units(tier, seed):
     for plat in ("ios", "nxos"):
         for opt in OPTIONS:
             out.append(dict(kind="options", platform=plat, option=opt))
+        out.append(dict(kind="items", platform=plat))
     for plat in ("ios", "nxos"):
         out.append(dict(kind="long_valid", platform=plat))
     for i in range(len(sweeps())):
@@ -138,6 +139,8 @@ def run_unit(unit, ctx):
         _config_misc(ctx)
     elif k == "options":
         _options(unit["platform"], unit["option"], ctx)
+    elif k == "items":
+        _items(unit["platform"], ctx)
     elif k == "long_valid":
         _long_valid(unit["platform"], ctx)
     elif k == "sweep":
@@ -151,6 +154,8 @@ def replay(case, ctx):
         config_call(case["func"], case["platform"], case["text"], ctx)
     elif case["kind"] == "sweep":
         _sweep(case["idx"], ctx)
+    elif case["kind"] == "items_call":
+        items_call(case["target"], case["platform"], case["items"], ctx)
     elif case["kind"] == "option_call":
         option_call(case["target"], case["platform"], case["text"], case["option"], case["value"], ctx)
 
@@ -341,7 +346,7 @@ def _config_misc(ctx):
 
 # ----------------------------------------------------------- text-valued keyword arguments
 
-OPTIONS = ["group_by", "indent", "version", "names", "name", "note"]
+OPTIONS = ["group_by", "indent", "version", "names", "name", "note", "sequence"]
 OPT_TEXT = ["", " ", "= ", "=", "*** ", "+++ ", "** ", "(", ")", "[", "]", "? ", "\\", ".*", "$", "^",
             "|", "{1}", "=== (", "a|b", "(?P<x>", "\\1", "%s", "{}", "{0}", "\t", "\n", "x y", "１２",
             "15.2(4)M", "9.3(8)", "16", "A", "-mgmt", "0"]
@@ -363,6 +368,9 @@ def option_call(target, platform, text, option, value, ctx):
             objs = res if isinstance(res, list) else [res]
             for o in objs:
                 _ = o.line
+                if option == "sequence" and hasattr(o, "sequence"):
+                    o.sequence = value  # the setter takes the same text
+                    _ = o.line
                 if target == "Acl" and option == "group_by":
                     o.ungroup()
                     o.group(value)
@@ -381,6 +389,55 @@ def option_call(target, platform, text, option, value, ctx):
     ctx.nt((target, platform, option, value, text))
 
 
+ITEM_TEXTS = ["10", " 20 ", "10 ", "0", "4294967296", "-1", "10 20", "permit", "10 permit", "remark",
+              "10 remark", "host", "any", "permit ip any", "permit ip any any", "10 permit ip any any",
+              "remark x", "", " ", "\n", "permit ip any any\npermit ip any any", "１２", "1e3", "0x10"]
+
+
+def items_call(target, platform, items, ctx):
+    """Lines given as a LIST of strings (items=[...] / the items setter) instead of one text."""
+    import cisco_acl
+
+    ctx.ev()
+    case = dict(kind="items_call", target=target, platform=platform, items=list(items))
+    cls, how = target.split(".")
+    try:
+        with cpu_alarm(3.0):
+            if how == "ctor":
+                obj = getattr(cisco_acl, cls)(name="A", platform=platform, items=list(items))
+            else:
+                seed = dict(Acl="ip access-list extended A\n permit ip any any", AceGroup="permit ip any any",
+                            AddrGroup=("object-group network A\n host 10.0.0.1" if platform == "ios" else
+                                       "object-group ip address A\n host 10.0.0.1"))[cls]
+                obj = getattr(cisco_acl, cls)(seed, platform=platform)
+                obj.items = list(items)
+            _ = obj.line
+    except (ValueError, TypeError):
+        ctx.out("documented_error")
+        return
+    except HarnessTimeout:
+        ctx.viol(f"{target}:items:cpu_budget_exceeded", case, "more than 3 s CPU", "quick")
+        return
+    except Exception as ex:  # noqa
+        ctx.viol(f"{target}:items:undocumented_exception:{type(ex).__name__}", case, repr(ex),
+                 "object or ValueError/TypeError")
+        return
+    ctx.out("items_returned")
+    ctx.nt((target, platform, tuple(items)))
+
+
+def _items(platform, ctx):
+    member = ["host 10.0.0.1", "10 host 10.0.0.2", "10.0.0.0/24", "10.0.0.0 255.255.255.0", "group-object B"]
+    for cls in ("Acl", "AceGroup", "AddrGroup"):
+        texts = ITEM_TEXTS + (member if cls == "AddrGroup" else [])
+        valid = "host 10.9.9.9" if cls == "AddrGroup" else "permit tcp any any eq 80"
+        for how in ("ctor", "setter"):
+            for t in texts:
+                for items in ([t], [valid, t], [t, valid], [t, t]):
+                    items_call(f"{cls}.{how}", platform, items, ctx)
+    ctx.sample("items", dict(platform=platform, texts=len(ITEM_TEXTS)))
+
+
 def _options(platform, option, ctx):
     head = "ip access-list extended A" if platform == "ios" else "ip access-list A"
     ghead = "object-group network G" if platform == "ios" else "object-group ip address G"
@@ -392,7 +449,7 @@ def _options(platform, option, ctx):
             targets = [("Acl", acl_text), ("AceGroup", body), ("acls", cfg), ("aces", cfg),
                        ("addrgroups", cfg), ("AddrGroup", f"{ghead}\n host 10.0.0.1"),
                        ("Ace", "permit tcp any any eq 80"), ("Remark", "remark x"),
-                       ("Address", "host 10.0.0.1")]
+                       ("Address", "host 10.0.0.1"), ("AddressAg", "host 10.0.0.1")]
             for target, text in targets:
                 option_call(target, platform, text, option, value, ctx)
     ctx.sample("options", dict(platform=platform, option=option, values=len(OPT_TEXT)))
